@@ -12,6 +12,18 @@ COMMON_ASSUME = [
 ]
 
 PROPS = {
+    "C04": dict(
+        level="exploration",
+        technique="runtime monitor: production connection handler (hook H1) driven over a scripted stream with chosen read segmentation; replies decoded by an independent RESP decoder and compared with a one-command-at-a-time twin; malformed-frame corpus watched for silence, hang, crash",
+        level_text="Generated command streams (GET/SET runs around the batching threshold, mixed case, options, other commands, unknown commands, wrong arity, binary keys and values containing RESP syntax) are written to the unmodified OptimizedConnectionHandler through hook H1 under every 1-point and (for streams <= 64 bytes; sampled in quick) every 2-point segmentation, byte-by-byte, at frame boundaries, with 14 batching/read-size/shard configurations; the decoded reply sequence must equal, reply by reply, what a fresh twin server answers when the same commands are sent one at a time. A corpus of unambiguous protocol errors (after 0-3 valid commands, split at every byte) must yield the earlier replies unchanged followed by an error reply; a connection that stops answering, never returns to reading (logical step budget) or panics is a violation.",
+        level_note="trusts the scripted stream (harness/src/conn.rs), the independent decoder, and that a fresh ShardedActorState is an identical twin; clock is the production clock, so TTL-bearing commands use large TTLs only; ACL/TLS off",
+        rule="case = one (command stream, batching/read-size/shard config, segmentation) run compared with its one-at-a-time twin, or one (malformed frame, valid prefix, config, split point) run; distinct_nontrivial = distinct (GETs, SETs, other commands, segmentation class, min_pipeline_buffer, batch_threshold, shards) tuples + distinct (malformed kind, prefix length, split class, shards)",
+        assumptions=COMMON_ASSUME + ["hang = handler did not return to an empty read within 200000 scheduler yields on a current-thread runtime (logical steps, not wall-clock)"],
+        legs=[
+            leg("pipeline", "c04-pipeline", "rel", quick=4, thorough=16),
+            leg("malformed", "c04-malformed", "rel", quick=1, thorough=4),
+        ],
+    ),
     "C15": dict(
         level="exploration",
         technique="runtime monitor: bounded-exhaustive + random inputs against both decoders under catch_unwind, a counting allocator and an independent strict RESP decoder; fragment-vs-whole replay; replies of real commands re-decoded; child-process abort detection",
